@@ -450,7 +450,7 @@ impl<'src: 'ast, 'ast> Parser<'src, 'ast> {
 
                 let initial_expr = self.alloc(Expr::Var(var, var_span));
                 self.peak = self.depth;
-                let expr = self.parse_expression_continuation(initial_expr, 0);
+                let expr = self.parse_expression_continuation(initial_expr, 0, self.depth);
 
                 if let Token::Get = self.cur.token {
                     self.bump(); // consume `get`
@@ -1054,7 +1054,7 @@ impl<'src: 'ast, 'ast> Parser<'src, 'ast> {
         // A chain of operators or postfixes grows the tree on top of `lhs`: keep counting
         // from the deepest point inside it, not from where it started.
         self.depth = self.peak;
-        let expr = self.parse_expression_continuation(lhs, min_bp);
+        let expr = self.parse_expression_continuation(lhs, min_bp, depth);
         self.depth = depth;
         self.peak = self.peak.max(outer_peak);
         expr
@@ -1066,6 +1066,7 @@ impl<'src: 'ast, 'ast> Parser<'src, 'ast> {
         &mut self,
         mut lhs: ExprRef<'ast>,
         min_bp: u8,
+        root_depth: usize,
     ) -> ExprRef<'ast> {
         let start = lhs.span().start;
         let depth_at_entry = self.depth;
@@ -1073,7 +1074,14 @@ impl<'src: 'ast, 'ast> Parser<'src, 'ast> {
         // Pratt parselet for function calls and binary operators
         loop {
             // Every round wraps `lhs` in one more node: a long chain is a deep tree too.
-            if !self.enter_nesting() {
+            // `lhs` is as deep as the deepest point reached so far, whether that was in its
+            // own left spine or in an operand, argument or index parsed by an earlier round.
+            self.depth = self.peak;
+            let wraps = match &self.cur.token {
+                Token::Dot | Token::LParen | Token::LBracket => true,
+                token => Self::binary_operator(token).is_some_and(|(_, l_bp, _)| l_bp >= min_bp),
+            };
+            if !wraps || !self.enter_nesting() {
                 break;
             }
             // Member access: <expr>.<identifier>
@@ -1129,6 +1137,7 @@ impl<'src: 'ast, 'ast> Parser<'src, 'ast> {
                 let mut args = Vec::new_in(self.arena);
                 if !matches!(self.cur.token, Token::RParen) {
                     loop {
+                        self.depth = root_depth;
                         let arg = self.parse_expression(0);
                         args.push(arg);
                         if let Token::Comma = self.cur.token {
@@ -1167,6 +1176,7 @@ impl<'src: 'ast, 'ast> Parser<'src, 'ast> {
             if let Token::LBracket = self.cur.token {
                 let bracket_start = self.cur.span.start;
                 self.bump(); // consume '['
+                self.depth = root_depth;
                 let index_expr = self.parse_expression(0);
                 let end = if let Token::RBracket = self.cur.token {
                     let end = self.cur.span.end;
@@ -1193,31 +1203,32 @@ impl<'src: 'ast, 'ast> Parser<'src, 'ast> {
                 continue;
             }
 
-            let (op, l_bp, r_bp) = match &self.cur.token {
-                Token::Times => (BinaryOp::Times, 20, 21),
-                Token::Divide => (BinaryOp::Divide, 20, 21),
-                Token::Mod => (BinaryOp::Mod, 20, 21),
-                Token::Add => (BinaryOp::Add, 10, 11),
-                Token::Minus => (BinaryOp::Minus, 10, 11),
-                Token::Na => (BinaryOp::Eq, 7, 8),
-                Token::Pass => (BinaryOp::Gt, 7, 8),
-                Token::SmallPass => (BinaryOp::Lt, 7, 8),
-                Token::And => (BinaryOp::And, 5, 6),
-                Token::Or => (BinaryOp::Or, 1, 2),
-                _ => break,
-            };
-
-            // `l_bp` is not greater?
-            if l_bp < min_bp {
-                break;
-            }
+            let Some((op, _, r_bp)) = Self::binary_operator(&self.cur.token) else { break };
             self.bump(); // consume the operator
+            self.depth = root_depth;
             let rhs = self.parse_expression(r_bp);
             let end = self.cur.span.end;
             lhs = self.alloc(Expr::Binary { op, lhs, rhs, span: Range::from(start..end) });
         }
         self.depth = depth_at_entry;
         lhs
+    }
+
+    // Binary operator with its left and right binding powers
+    fn binary_operator(token: &Token<'ast>) -> Option<(BinaryOp, u8, u8)> {
+        Some(match token {
+            Token::Times => (BinaryOp::Times, 20, 21),
+            Token::Divide => (BinaryOp::Divide, 20, 21),
+            Token::Mod => (BinaryOp::Mod, 20, 21),
+            Token::Add => (BinaryOp::Add, 10, 11),
+            Token::Minus => (BinaryOp::Minus, 10, 11),
+            Token::Na => (BinaryOp::Eq, 7, 8),
+            Token::Pass => (BinaryOp::Gt, 7, 8),
+            Token::SmallPass => (BinaryOp::Lt, 7, 8),
+            Token::And => (BinaryOp::And, 5, 6),
+            Token::Or => (BinaryOp::Or, 1, 2),
+            _ => return None,
+        })
     }
 
     fn parse_string_literal(&mut self, content: &ArenaCow<'ast>, span: Span) -> ExprRef<'ast> {
